@@ -65,6 +65,9 @@ def own_error_forms():
             "(progn (dolist (a '(1 2)) (eval (list 'defun 'a nil a))) (a))", "(progn (dotimes (b 2) (eval (list 'defun 'b '(x) 'x))) (b 9))",
             "(progn (funcall (lambda (c) (eval (list 'defmacro 'c '(x) 'x))) 3) (c 4))", "(progn (let* ((a 1) (b 2)) (eval (list 'defun 'a nil 'b)) (eval (list 'defun 'b nil ''bb)) (list a b)) (list (a) (b)))",
             "(let ((a 1)) (let ((a 2)) (eval (list 'defun 'a nil 3))) a)"]
+    out += ["(progn (defun tw (a b) (if (< a 1) b (tw (- a 1)))) (tw 2 'x))", "(progn (defun tw (a b) (if (< a 1) b (tw (- a 1) b 'extra))) (tw 2 'x))", "(progn (defun tw (a &optional b) (cond ((< a 1) b) (t (tw (- a 1) b 1 2)))) (tw 3))",
+            "(progn (defun tw (a b c) (if (< a 1) (list b c) (progn (setq c (cons a c)) (if (equal a 1) (tw 0) (tw (- a 1) b c))))) (tw 3 'x nil))", "(progn (defun tw (a b) (if (< a 1) (car 5) (tw (- a 1) (cons a b)))) (tw 3 nil))",
+            "(progn (defun tw (a b) (let ((c 1)) (if (< a 1) (nosuchfn) (tw (- a c) b)))) (tw 2 'x))", "(progn (defun tw (a) (if (< a 1) novar (tw (- a 1)))) (mapcar 'tw '(0 2)))"]
     out += ["(dotimes (a) 1)", "(dotimes a 1)", "(dotimes (a 2 3 4) 1)", "(dotimes (a 2 . 3) 1)", "(dotimes (a . 2) 1)", "(dotimes)",
             "(dolist (a) 1)", "(dolist a 1)", "(dolist (a '(1) 3 4) 1)", "(dolist (a '(1) . 3) 1)", "(dolist (a . 2) 1)", "(dolist)",
             "(dotimes (a 2) . 5)", "(dolist (a '(1 2)) . 5)", "(let ((a 1)) . 5)", "(let* ((a 1)) . 5)", "(let ((a 1) . 5) 1)",
